@@ -169,6 +169,14 @@ class Sequence:
     def delta(self):
         return (self.deltaForm(5) + self.deltaForm(6)) / 2
 
+    # ---- C07: Sawle-Ghosh sequence charge decoration, residues numbered 1..N
+    def sequence_charge_decoration(self):
+        total = 0
+        for m in range(2, self.len + 1):
+            for n in range(1, m):
+                total += self.chargePattern[m - 1] * self.chargePattern[n - 1] * (m - n) ** 0.5
+        return total / self.len
+
     # ---- C01 (delta-max itself is C03's; here it is an opaque non-negative quantity)
     def deltaMax(self):
         return self.dmax
